@@ -278,4 +278,7 @@ def run(ctx):
         for k, v in sorted(counts.items()):
             ctx.count('%s:%s' % (k, cfg), v)
         ctx.floor('mask / comparison instances (%s)' % cfg, sum(counts.values()), 380)
+    if ctx.tier == 'thorough':
+        from runner import run_witness
+        run_witness(ctx, ['C15'])
     ctx.extra['exhaustive'] = True
